@@ -95,6 +95,10 @@ type run struct {
 	traces    []traceRec
 	syncMaps  map[*value]map[string]value
 	onceDone  map[*value]bool
+	pools     map[*value][]value  // sync.Pool contents (worst case: last put is next got)
+	frozen    map[*value]string   // cells no operation may write to -> obligation label
+	frozenMap map[*smap]string
+	frozenSeen map[string]bool
 	syncIDs   map[*value]int
 	syncLog   []syncEv
 	held      map[*value]int
@@ -321,6 +325,18 @@ func (r *run) violation(kind, label, detail string) {
 	}
 	r.snapshot(&o, model)
 	r.obligs = append(r.obligs, o)
+}
+
+// frozenHit: a write reached memory the harness declared read-only
+func (r *run) frozenHit(label string) {
+	if r.frozenSeen == nil {
+		r.frozenSeen = map[string]bool{}
+	}
+	if r.frozenSeen[label] {
+		return
+	}
+	r.frozenSeen[label] = true
+	r.violation("frozen", label, "a write reached memory that must not change (argument, kept result or another instance's state)")
 }
 
 func (r *run) cover(label string, c *Term) {
@@ -637,6 +653,9 @@ func (e *engine) runPath(sol *Solver, entry *ssa.Function, args []value, prefix 
 		maxLen:     e.maxLen,
 		syncMaps:   map[*value]map[string]value{},
 		onceDone:   map[*value]bool{},
+		pools:      map[*value][]value{},
+		frozen:     map[*value]string{},
+		frozenMap:  map[*smap]string{},
 		names:      map[*value]string{},
 		twins:      map[*Term]*Term{},
 		watch:      map[*value]string{},
